@@ -586,6 +586,16 @@ func (m *Manager) rotateWAL() error {
 	}
 	verifhook.At("sm.rotate.marked")
 
+	// Everything still buffered in the old WAL has to be on disk before writers can
+	// reach the new one: otherwise a newer record (in the new file) could survive a
+	// crash that loses an older one (in the old file's buffer)
+	if currentWAL != nil {
+		if err := currentWAL.SyncForRotation(); err != nil {
+			currentWAL.SetActive()
+			return fmt.Errorf("failed to sync old WAL: %w", err)
+		}
+	}
+
 	// Create a new WAL first before closing the old one
 	newWAL, err := wal.NewWAL(m.cfg, m.walDir)
 	if err != nil {
